@@ -77,6 +77,7 @@ namespace sim
     // temporary first, so these too must behave as if the element had been copied first
     K_EMPLACE_CREF_ALIAS,
     K_EMPLACE_BACK_CREF_ALIAS,
+    K_EMPLACE_MEMBER_ALIAS,   // emplace (pos, v[i].value): the argument is a sub-object of an element
     K_NKINDS
   };
 
@@ -93,7 +94,8 @@ namespace sim
       "emplace_alias", "push_back_alias", "emplace_back_alias", "resize_val_alias", "erase_pos",
       "erase_range", "pop_back", "clear", "nm_erase", "nm_erase_if", "reserve", "shrink_to_fit",
       "resize", "resize_val", "append_range", "append_ilist", "append_copy_sv", "append_move_sv",
-      "at", "compare", "nm_access", "emplace_cref_alias", "emplace_back_cref_alias"
+      "at", "compare", "nm_access", "emplace_cref_alias", "emplace_back_cref_alias",
+      "emplace_member_alias"
     };
     return (0 <= k && k < K_NKINDS) ? names[k] : "?";
   }
